@@ -25,6 +25,42 @@ import (
 
 const root = "/verif"
 
+// Alternative tree (sensitivity runs against a scratch worktree, never registered as a check):
+// DSIM_REPO=<dir> builds the harness against <dir> instead of /repo through a generated -modfile, and keeps
+// every output (instrumented sources, binaries, run logs, replays, evidence) under _build/alt/<tag>/ so that
+// such runs neither touch /repo nor the evidence and replays of the registered checks.
+var (
+	repoDir  = "/repo"
+	buildDir = filepath.Join(root, "_build")
+	outRoot  = root // evidence/ and replays/ live here
+	altMod   = ""   // -modfile for an alternative tree
+)
+
+func setupAlt() {
+	r := os.Getenv("DSIM_REPO")
+	if r == "" || filepath.Clean(r) == "/repo" {
+		return
+	}
+	r = filepath.Clean(r)
+	tag := os.Getenv("DSIM_TAG")
+	if tag == "" {
+		tag = strings.ReplaceAll(strings.Trim(r, "/"), "/", "_")
+	}
+	repoDir = r
+	buildDir = filepath.Join(root, "_build", "alt", tag)
+	outRoot = buildDir
+	os.MkdirAll(buildDir, 0o755)
+	gm, err := os.ReadFile(filepath.Join(root, "dsim", "go.mod"))
+	if err != nil {
+		die("reading go.mod: %v", err)
+	}
+	mod := strings.ReplaceAll(string(gm), "=> /repo\n", "=> "+r+"\n")
+	mod = strings.ReplaceAll(mod, "=> ../_build/flux", "=> "+filepath.Join(root, "_build", "flux"))
+	altMod = filepath.Join(buildDir, "go.mod")
+	os.WriteFile(altMod, []byte(mod), 0o644)
+	copyFile(filepath.Join(root, "dsim", "go.sum"), filepath.Join(buildDir, "go.sum"))
+}
+
 type result struct {
 	Seed       uint64         `json:"seed"`
 	Sig        string         `json:"sig"`
@@ -73,7 +109,11 @@ func env() []string {
 		}
 		e = append(e, kv)
 	}
-	return append(e, "GOFLAGS=-mod=mod", "GOPROXY=off", "GONOSUMDB=*", "GONOSUMCHECK=1", "GOPRIVATE=*", "GOWORK=off")
+	flags := "GOFLAGS=-mod=mod"
+	if altMod != "" {
+		flags += " -modfile=" + altMod
+	}
+	return append(e, flags, "GOPROXY=off", "GONOSUMDB=*", "GONOSUMCHECK=1", "GOPRIVATE=*", "GOWORK=off")
 }
 
 func run(dir string, extraEnv []string, name string, args ...string) (string, error) {
@@ -123,6 +163,7 @@ func main() {
 		}
 	}
 	t0 := time.Now()
+	setupAlt()
 	bin, sites := build(spec)
 	if replay != "" {
 		code := doReplay(spec, bin, sites, replay)
@@ -150,8 +191,8 @@ func main() {
 
 // build instruments and compiles the harness; returns the test binary and the site table path.
 func build(spec *checkSpec) (string, string) {
-	bdir := filepath.Join(root, "_build")
-	if _, err := os.Stat(filepath.Join(bdir, "flux", ".stub-ok")); err != nil {
+	bdir := buildDir
+	if _, err := os.Stat(filepath.Join(root, "_build", "flux", ".stub-ok")); err != nil {
 		if out, err := run(root, nil, "/bin/bash", filepath.Join(root, "bin/setup.sh")); err != nil {
 			die("setup failed: %v\n%s", err, out)
 		}
@@ -164,13 +205,13 @@ func build(spec *checkSpec) (string, string) {
 	}
 	inst := filepath.Join(bdir, "inst", spec.ID)
 	os.RemoveAll(inst)
-	instBin := filepath.Join(bdir, "bin", "instrument")
+	instBin := filepath.Join(root, "_build", "bin", "instrument")
 	if _, err := os.Stat(instBin); err != nil {
 		if out, err := run(dsim, nil, "go", "build", "-o", instBin, "./cmd/instrument"); err != nil {
 			die("building instrumenter: %v\n%s", err, out)
 		}
 	}
-	args := []string{"-out", inst}
+	args := []string{"-out", inst, "-repo", repoDir}
 	if spec.NoAtomics {
 		args = append(args, "-noatomics")
 	}
@@ -195,7 +236,7 @@ func build(spec *checkSpec) (string, string) {
 			ov.Replace = map[string]string{}
 		}
 		for dst, src := range spec.ExtraOverlay {
-			ov.Replace[filepath.Join("/repo", dst)] = filepath.Join(dsim, src)
+			ov.Replace[filepath.Join(repoDir, dst)] = filepath.Join(dsim, src)
 		}
 		b, _ := json.MarshalIndent(ov, "", " ")
 		os.WriteFile(ovPath, b, 0o644)
@@ -412,7 +453,7 @@ func (c *campaign) explore(budget int) {
 	c.violFiles = map[string]string{}
 	c.violInfo = map[string]violation{}
 	c.violGating = map[string]bool{}
-	outDir := filepath.Join(root, "_build", "runs", c.spec.ID)
+	outDir := filepath.Join(buildDir, "runs", c.spec.ID)
 	os.RemoveAll(outDir)
 	os.MkdirAll(outDir, 0o755)
 	procs := runtime.NumCPU()
@@ -527,7 +568,7 @@ func (c *campaign) report(seed uint64, t0 time.Time) int {
 		keys = append(keys, k)
 	}
 	sort.Strings(keys)
-	os.MkdirAll(filepath.Join(root, "replays"), 0o755)
+	os.MkdirAll(filepath.Join(outRoot, "replays"), 0o755)
 	nviol := 0
 	observations := []map[string]string{}
 	knownSeen := []string{}
@@ -573,7 +614,7 @@ func (c *campaign) report(seed uint64, t0 time.Time) int {
 		final := ""
 		if orig != "" {
 			if _, err := os.Stat(orig); err == nil {
-				base := filepath.Join(root, "replays", fmt.Sprintf("%s-%s", c.spec.ID, strings.TrimSuffix(filepath.Base(orig), ".orig.json")))
+				base := filepath.Join(outRoot, "replays", fmt.Sprintf("%s-%s", c.spec.ID, strings.TrimSuffix(filepath.Base(orig), ".orig.json")))
 				keep := base + ".orig.json"
 				copyFile(orig, keep)
 				setProperty(keep, c.spec.ID)
@@ -798,9 +839,9 @@ func (c *campaign) writeEvidence(seed uint64, t0 time.Time, nviol int, observati
 		"wall_s":      wall,
 		"violations":  nviol,
 	}
-	os.MkdirAll(filepath.Join(root, "evidence"), 0o755)
+	os.MkdirAll(filepath.Join(outRoot, "evidence"), 0o755)
 	b, _ := json.MarshalIndent(ev, "", " ")
-	os.WriteFile(filepath.Join(root, "evidence", c.spec.ID+".json"), b, 0o644)
+	os.WriteFile(filepath.Join(outRoot, "evidence", c.spec.ID+".json"), b, 0o644)
 }
 
 func doReplay(spec *checkSpec, bin, sites, file string) int {
@@ -836,7 +877,7 @@ func doReplay(spec *checkSpec, bin, sites, file string) int {
 // and 16 (twice at 4) and the run signatures (schedule + disk events + operations), step counts, disk
 // event counts and violation classes must be identical.
 func doSelftest(spec *checkSpec, bin, sites string, base uint64, n int) int {
-	outDir := filepath.Join(root, "_build", "runs", spec.ID+"-selftest")
+	outDir := filepath.Join(buildDir, "runs", spec.ID+"-selftest")
 	os.RemoveAll(outDir)
 	os.MkdirAll(outDir, 0o755)
 	bad := 0
